@@ -8,7 +8,7 @@ from translate import spinlock_decls
 
 MODS = ["PrimitivModel.Props.C19"]
 FINDING_MOD = "PrimitivModel.Props.Findings.C19Drf"
-FAMILY, HARNESS, TSAN = "spin", "h_spin", "h_spin_tsan"
+FAMILY, HARNESS, TSAN, HARNESS_DEV = "spin", "h_spin", "h_spin_tsan", "h_spin_dev"
 OPS = ["lock", "try_lock", "unlock"]
 CORPUS = os.path.join(build.VERIF, "corpus", "spin.ops")
 
@@ -74,6 +74,43 @@ def mixin_stream(rng, n):
         else:
             lines.append("default get")
     return lines
+
+
+def xd_stream(rng, n):
+    """Default slot of Device / Graph used from several (sequenced) threads."""
+    lines = []
+    for kind in ("dev", "graph"):
+        # the scenario itself: A sets the default, B destroys it, A asks for it
+        lines += ["xd %s 0 new 1" % kind, "xd %s 0 set 1" % kind, "xd %s 1 get" % kind, "xd %s 1 del 1" % kind, "xd %s 0 get" % kind,
+                  "xd %s 2 new 1" % kind, "xd %s 2 new 2" % kind, "xd %s 3 set 2" % kind, "xd %s 0 del 1" % kind, "xd %s 1 get" % kind,
+                  "xd %s 2 del 2" % kind, "xd %s 3 get" % kind]
+    while len(lines) < n:
+        kind = rng.choice(["dev", "graph"])
+        a = rng.randrange(4)
+        if rng.random() < 0.25:
+            t1, t2 = rng.sample(range(4), 2)
+            lines += ["xd %s %d new %d" % (kind, t1, a), "xd %s %d set %d" % (kind, t1, a), "xd %s %d del %d" % (kind, t2, a), "xd %s %d get" % (kind, t1)]
+            continue
+        t = rng.randrange(4) if rng.random() < 0.95 else rng.choice([4, 7])
+        r = rng.random()
+        if r < 0.25:
+            lines.append("xd %s %d new %d" % (kind, t, a))
+        elif r < 0.5:
+            lines.append("xd %s %d set %d" % (kind, t, a))
+        elif r < 0.75:
+            lines.append("xd %s %d del %d" % (kind, t, a))
+        elif r < 0.97:
+            lines.append("xd %s %d get" % (kind, t))
+        else:
+            lines.append(rng.choice(["xd", "xd dev", "xd foo 0 get", "xd dev 0 new 16", "xd graph 0 frob 1", "xd dev 0 get 1", "xd graph x get"]))
+    return lines
+
+
+def deep_stream(rng, quick):
+    ns = [70000, 2, 3, 65535, 65536, 65537, 1, 0, 1000001] + [rng.randrange(2, 200000) for _ in range(3 if quick else 20)]
+    if not quick:
+        ns += [1000000, 131072, 131073]
+    return ["deep %d" % n for n in ns]
 
 
 MALFORMED = ["step 0", "prog 0 lock", "graphx", "threads 0 rspin", "threads 9 spin", "threads 2 mutex", "threads x spin",
@@ -205,6 +242,14 @@ class Monitor:
                         return ("data race: threads %d and %d are both about to access the non-atomic field %s (%s / %s)"
                                 % (a, b, CXX_FIELD[x[0]], pend[a], pend[b]))
             return None
+        if w[:1] == ["deep"] and impl.startswith("ok "):
+            f = dict(x.split("=", 1) for x in impl.split()[1:] if "=" in x)
+            if f.get("try1") == "true" or f.get("try2") == "true":
+                return ("mutual exclusion violated: another thread's try_lock() succeeded while the owner still held the RecursiveSpinlock "
+                        "(nested %s deep, %s)" % (w[1], "one unlock" if f.get("try1") == "true" else "all but one unlock"))
+            if f.get("try3") != "true" or f.get("flag") != "0":
+                return "lost release: after %s nested lock() and as many unlock() calls the RecursiveSpinlock is not free" % w[1]
+            return None
         if w[:2] == ["ident", "new"] and impl.startswith("ok "):
             i = impl.split()[1]
             if i in self.ids:
@@ -216,6 +261,10 @@ class Monitor:
 
 
 def violation_key(what):
+    if what.startswith("mutual exclusion") and "nested" in what:
+        return "spin:mutex:deep-nesting"
+    if what.startswith("lost release") and "nested" in what:
+        return "spin:lost-release:deep-nesting"
     if what.startswith("mutual exclusion"):
         return "spin:mutex"
     if what.startswith("re-entrancy"):
@@ -238,6 +287,11 @@ def scenario_of(lines):
     """The last scenario of a stream prefix (from its `threads` line on); for
     mixin lines the whole prefix restricted to mixin lines."""
     last = lines[-1].split()[0]
+    if last == "deep":
+        return [lines[-1]]
+    if last == "xd":
+        k = lines[-1].split()[1:2]
+        return [l for l in lines if l.split()[:1] == ["xd"] and l.split()[1:2] == k]
     if last in ("ident", "default"):
         return [l for l in lines if l.split()[0] == last]
     idx = max([i for i, l in enumerate(lines) if l.startswith("threads ")] or [0])
@@ -245,8 +299,14 @@ def scenario_of(lines):
 
 
 # ------------------------------------------------------------------------ run
+def tsan_exe():
+    """The free-running program; primitiv/core/memory_pool.cc (the real Identifiable user) is compiled into it."""
+    mp = os.path.join(spinlock_decls.repo(), "primitiv", "core", "memory_pool.cc")
+    return build.build_harness(TSAN, "tsan", link_lib=False, extra_flags=["-DVERIF_SRC=" + build.sha(build.read(mp)), mp])
+
+
 def run_tsan(chk, iters, tmo=240):
-    exe = build.build_harness(TSAN, "tsan", link_lib=False)
+    exe = tsan_exe()
     env = dict(os.environ)
     env.update({"TSAN_OPTIONS": "exitcode=96:halt_on_error=1:report_signal_unsafe=0"})
     t0 = time.time()
@@ -285,8 +345,12 @@ def run(chk):
                 "shared-memory access, through PRIMITIV_VERIF_YIELD) and by the Lean model, and compared per step (access, returned value, "
                 "flag/owner/count, holders, pending access of every thread). thorough: for every multiset of programs (2 threads x <= 3 calls, "
                 "3 threads x <= 2 calls, both classes) the reachable state graph is enumerated from the model and schedules that traverse "
-                "every transition of it are executed on the real code. (b) sequential histories of Identifiable / DefaultSettable commands. "
-                "(c) a free-running ThreadSanitizer program (4 threads). Non-trivial = a step that performed a shared-memory access; "
+                "every transition of it are executed on the real code. (b) sequential histories of Identifiable / DefaultSettable commands; the default slot of the "
+                "real Device (Naive) and Graph set, read and destroyed from four persistent threads joined in sequence (`xd` lines); a free-running "
+                "deep-nesting run of the real RecursiveSpinlock (`deep n`: 70000, values around 2^16 and 2^17, random n; one unlock / all but one / all, "
+                "another thread's try_lock() after each phase). "
+                "(c) a free-running ThreadSanitizer program (4 threads: lock() and try_lock() paths of both classes around plain counters; "
+                "Identifiable objects incl. the real MemoryPool created, looked up and destroyed concurrently). Non-trivial = a step that performed a shared-memory access; "
                 "distinct = distinct (scenario, schedule prefix) for random schedules, distinct transitions for the enumerated graphs.")
     # 1. translator: declarations of the working tree → Gen/SpinlockDecls.lean
     try:
@@ -295,7 +359,9 @@ def run(chk):
         chk.report("spin:translator", "primitiv/core/spinlock.h no longer has the shape the model of C19 describes: %s" % e,
                    {"translator": "translate/spinlock_decls.py", "error": str(e)}, found_input=False)
         return
-    chk.extra_cov["translated_decls"] = {c: {"members": d["members"], "try_lock": d["try_lock"], "unlock": d["unlock"]} for c, d in decls.items()}
+    chk.extra_cov["translated_decls"] = {c: {"members": {n: " ".join(st + [ty]) for n, (ty, st) in d["table"].items()}, "try_lock": d.get("try_lock"), "unlock": d.get("unlock"),
+                                                "guarded": d.get("guarded")}
+                                            for c, d in list(decls.items())[:2] + list(decls["mixins"].items())}
     chk.extra_cov["decls_differ_from_golden"] = spinlock_decls.differs_from_golden(decls)
     # 2. theorems
     chk.obligations(MODS, drivers=[FAMILY])
@@ -326,6 +392,7 @@ def run(chk):
     for i in range(0, len(scen), per_stream):
         streams.append([l for s in scen[i:i + per_stream] for l in s])
     streams.append(list(MALFORMED))
+    streams.append(deep_stream(rng, quick))
     for _ in range(4 if quick else 20):
         streams.append(mixin_stream(rng, 400))
     # exhaustive part: state graphs from the model
@@ -356,7 +423,9 @@ def run(chk):
                                    "schedules_covering_every_transition": n_paths}
 
     def nontrivial(line, out):
-        return line.startswith("step") and out.startswith("ok ") and not out.startswith("ok none")
+        if line.startswith("step"):
+            return out.startswith("ok ") and not out.startswith("ok none")
+        return out.startswith("ok") or out == "err"
 
     def post(lines, impl, model):
         # a new process: the monitor starts afresh; count distinct (scenario, schedule prefix) pairs
@@ -366,7 +435,7 @@ def run(chk):
             if l.startswith("threads "):
                 h = hashlib.sha256()
             h.update(l.encode() + b"\n")
-            if nontrivial(l, o):
+            if l.startswith("step") and nontrivial(l, o):
                 chk.nontrivial.add(h.hexdigest()[:16])
         return impl, model
 
@@ -381,6 +450,33 @@ def run(chk):
                    "(/verif/patches/hook-spinlock-yield.diff is not applied): the model cannot be tied to the code, nothing is shown",
                    {"broken": "correspondence spin/h_spin", "patch": "patches/hook-spinlock-yield.diff"}, found_input=False)
 
+    # cross-thread lifetime of the default slot of the real Device / Graph (harness linked against the library)
+    xstreams = [xd_stream(rng, 300) for _ in range(2 if quick else 10)]
+    mon.reset()
+    dis_x, judged_x, crashes_x = chk.correspond(FAMILY, HARNESS_DEV, xstreams, stateful=True, judge=mon, nontrivial=nontrivial,
+                                                 timeout=600, post=lambda l, i, m: (mon.reset(), (i, m))[1])
+    exe_dev = build.build_harness(HARNESS_DEV)
+    for j in judged_x:
+        key = violation_key(j["what"]) + ":" + j["line"].split()[1]
+        lines = scenario_of(j["lines"])
+
+        def fails_x(ls):
+            m2 = Monitor(decls)
+            outs, _ = vrun.run_impl(exe_dev, ls, stateful=True, timeout=60)
+            return any(o != "skipped" and m2(l, o) for l, o in zip(ls, outs))
+
+        small = vcheck.shrink(lines, fails_x) if fails_x(lines) else lines
+        outs, _ = vrun.run_impl(exe_dev, small, stateful=True, timeout=60)
+        chk.report(key, j["what"] + " (default slot used from several threads, joined in sequence)",
+                   {"family": FAMILY, "harness": HARNESS_DEV, "variant": "asan", "stateful": True, "lines": small, "observed_impl": outs})
+    if dis_x and not judged_x:
+        d = dis_x[0]
+        chk.report("correspondence:spin:xd:" + ":".join(d["line"].split()[1:4:2]),
+                   "model and implementation disagree at `%s` (impl `%s`, model `%s`): the sequential one-slot model of DefaultSettable no longer "
+                   "describes Device/Graph" % (d["line"], d["impl"], d["model"]),
+                   {"family": FAMILY, "harness": HARNESS_DEV, "variant": "asan", "stateful": True, "lines": scenario_of(d["lines"]),
+                    "observed_impl": d["impl"], "model": d["model"], "broken": "correspondence spin/h_spin_dev"}, found_input=False)
+    crashes = list(crashes) + list(crashes_x)
     # 4. decisions
     if dis:
         # model != implementation somewhere (the comparison of a stream stops there): search the generated
@@ -493,7 +589,7 @@ def replay(path):
     rp = obj.get("replay", {})
     print("replay of C19: %s" % obj.get("what", "")[:400])
     if rp.get("harness") == TSAN:
-        exe = build.build_harness(TSAN, "tsan", link_lib=False)
+        exe = tsan_exe()
         env = dict(os.environ); env["TSAN_OPTIONS"] = "exitcode=96:halt_on_error=1"
         p = subprocess.run([exe] + rp.get("args", []), capture_output=True, text=True, timeout=600, env=env)
         print(p.stdout.strip()); print(p.stderr[-2500:])
@@ -502,7 +598,7 @@ def replay(path):
         print(json.dumps(rp, indent=1)[:3000])
         return 0
     decls = spinlock_decls.regenerate()
-    exe = build.build_harness(HARNESS, link_lib=False)
+    exe = build.build_harness(HARNESS_DEV) if rp.get("harness") == HARNESS_DEV else build.build_harness(HARNESS, link_lib=False)
     lean.lake(["build", "drv_" + FAMILY])
     impl, reports = vrun.run_impl(exe, rp["lines"], stateful=True)
     model = vrun.run_model(FAMILY, rp["lines"])
